@@ -12,7 +12,7 @@ import (
 func init() {
 	register("C13", Meta{
 		Explanation: "Structural necessary conditions of batch invalidation: (cancel-callers) the batch-cancel function (re-indexes a batch's transfers into the pool and deletes the batch) is called only from the begin-block timeout sweep and from the batch-executed handler; (timeout-guard) in the sweep the call is guarded by 'batch.Timeout < h' (or <=) where h is a load of LatestBlockHeight.ExternalHeight read from the store with no arithmetic on it (no projection), the cancelled batch is the one whose Timeout was tested, and the stored height is written only by the apply function with the event's external height and by InitGenesis; (older-same-token) in the executed handler the cancel is guarded by 'other.BatchNonce < executed.BatchNonce' (strict) and 'other.ExternalTokenId == executed.ExternalTokenId' and cancels that other batch; every call chain to the cancel function passes 'chainId != \"minter\"'; (exact-delete) the executed batch's own index is deleted (C04.batch-executed).",
-		NotDecided: []string{"the claim about what the external chain can still execute (depends on external block production)", "timeouts of contract calls"},
+		NotDecided:  []string{"the claim about what the external chain can still execute (depends on external block production)", "timeouts of contract calls"},
 		Assumptions: commonAssumptions,
 	}, checkC13)
 }
